@@ -140,3 +140,26 @@ where
     new_z[row_range].copy_from(&old_z[src_range]);
     row_ptr + cone.nvars()
 }
+
+// ---------------------------------------------------------------------------
+// verification hooks (add-only, off unless feature `verif-hooks` is enabled)
+#[cfg(feature = "verif-hooks")]
+impl<T> ChordalInfo<T>
+where
+    T: FloatT,
+{
+    pub(crate) fn vh_largest_nblk(&self) -> usize {
+        self.largest_nblk()
+    }
+    pub(crate) fn vh_add_blocks_with_cone(
+        new_s: &mut [T],
+        old_s: &[T],
+        new_z: &mut [T],
+        old_z: &[T],
+        row_range: Range<usize>,
+        cone: &SupportedConeT<T>,
+        row_ptr: usize,
+    ) -> usize {
+        add_blocks_with_cone(new_s, old_s, new_z, old_z, row_range, cone, row_ptr)
+    }
+}
